@@ -1,4 +1,6 @@
 import N0Verif.Proofs.XPathCreate
+import N0Verif.Proofs.XPathHistory
+import N0Verif.Proofs.XPathCreate2
 /-!
 # C03 — assigning to a missing xpath creates exactly the missing chain; `new()` appends
 
@@ -156,18 +158,17 @@ theorem C03_read_back_elem (cls : Cls) (kvs : List (Str × Val)) (q : Pos) (kcls
       (slash ++ renderPos q ++ slash ++ (name ++ bracket sLast) ++ renderPos (tail.map Seg.key)) = (t', .ok v) :=
   readback_elem cls kvs q kcls nkvs name c ys tail v t' fuel hp hget hn ht hset hf
 
-/-! ## 5. full statements that stay open -/
+/-! ## 5. every path of the honoured grammar `G_ok` -/
 
-/-- **full statement (every path of the honoured grammar `G_ok`).**  `steps` is a creation path
-below the existing node `cur` at `q`: the first step may be a fresh name, `n[new()]` (fresh or
-existing `n`), `n[0]` (fresh), `n[len]`, or — below a list — `[new()]`/`[len]`; later steps are fresh
-names, `n[new()]`, `n[0]`; every element-creating step is last or followed by a name.  Then
-`d[path] = v` yields exactly `createIn`.
+/-- **unhypothesised statement (every path of `G_ok`).**  `steps` is a creation path below the
+existing node `cur` at `q`: the first step may be a fresh name, `n[new()]` (fresh or existing `n`),
+`n[0]` (fresh), `n[len]`, or — below a list — `[new()]`/`[len]`; later steps are fresh names,
+`n[new()]`, `n[0]`; every element-creating step is last or followed by a name.  Then `d[path] = v`
+yields exactly `createIn`.
 
-Proved: everything except a bare `[new()]`/`[len]` first step (`C03_create_partial`).  For that
-remaining shape the statement is false when the list is an element of a plain `list`
-(`C03_new_in_plain_list_cex`, known finding C03-c); for a list held by a key the path text is the
-same as `name[new()]`/`name[len]` from the parent dict, which `C03_create_partial` covers. -/
+**False as it stands** (`C03_create_stmt_false`): a bare `[new()]` below a list that is an element of
+a *plain* `list` raises `TypeError` (finding C03-c, in general form `C03_new_in_plain_list_raises`).
+With exactly that case excluded the statement is proved: `C03_create`. -/
 def C03_create_stmt : Prop :=
   ∀ (cls : Cls) (kvs : List (Str × Val)) (q : Pos) (cur cur' : Val) (s : CStep) (steps : List CStep) (v t' : Val),
     PlainPos q → getAt (.dict cls kvs) q = some cur → s.first → (∀ x ∈ steps, x.later) → GOk (s :: steps) →
@@ -198,13 +199,135 @@ theorem C03_create_partial (cls : Cls) (kvs : List (Str × Val)) (q : Pos) (kcls
 theorem C03_create_total (t : Val) (q : Pos) (cur cur' : Val) (hget : getAt t q = some cur) :
     ∃ t', setAt t q cur' = some t' := setAt_isSome q t cur cur' hget
 
-/-- **full statement (read back).**  After a successful `d[xpath] = v` the value reads back
-through the same path with `new()` replaced by `last()`.  (Proved for the shapes above:
-`C03_read_back_names`, `C03_read_back_elem`.) -/
+/-- **`[new()]` below a list that is an element of an `n0list`** (optionally followed by later steps):
+exactly one element is appended to the addressed list. -/
+theorem C03_append_new_in_n0list (cls : Cls) (kvs : List (Str × Val)) (q0 : Pos) (i : Nat) (ys : List Val)
+    (c : Cls) (xs : List Val) (steps : List CStep) (v t' : Val) (fuel : Nat)
+    (hp : PlainPos q0) (hq0 : getAt (.dict cls kvs) q0 = some (.list .n0 ys)) (hi : ys[i]? = some (.list c xs))
+    (hsteps : ∀ x ∈ steps, x.later) (hg : GOk (.idx sNew :: steps))
+    (hset : setAt (.dict cls kvs) (q0 ++ [.idx i]) (.list c (xs ++ [fill steps v])) = some t')
+    (hf : fuel ≥ 4 * (q0.length + 2)) :
+    setItem fuel (.dict cls kvs)
+      (slash ++ renderPos (q0 ++ [.idx i]) ++ (CStep.idx sNew :: steps).flatMap renderCStep) v = (t', .ok ()) :=
+  setItem_create_idx_in_list cls kvs q0 i .n0 ys c xs sNew steps v t' fuel hp hq0 hi (Or.inl rfl) (fun _ => rfl)
+    hsteps hg hset hf
+
+/-- **`[len]` below a list that is an element of any list** (plain or `n0list`): exactly one element
+is appended (no second lookup through the enclosing list is made on this branch). -/
+theorem C03_len_in_list (cls : Cls) (kvs : List (Str × Val)) (q0 : Pos) (i : Nat) (c0 : Cls) (ys : List Val)
+    (c : Cls) (xs : List Val) (steps : List CStep) (v t' : Val) (fuel : Nat)
+    (hp : PlainPos q0) (hq0 : getAt (.dict cls kvs) q0 = some (.list c0 ys)) (hi : ys[i]? = some (.list c xs))
+    (hsteps : ∀ x ∈ steps, x.later) (hg : GOk (.idx (natStr xs.length) :: steps))
+    (hset : setAt (.dict cls kvs) (q0 ++ [.idx i]) (.list c (xs ++ [fill steps v])) = some t')
+    (hf : fuel ≥ 4 * (q0.length + 2)) :
+    setItem fuel (.dict cls kvs)
+      (slash ++ renderPos (q0 ++ [.idx i]) ++ (CStep.idx (natStr xs.length) :: steps).flatMap renderCStep) v
+        = (t', .ok ()) :=
+  setItem_create_idx_in_list cls kvs q0 i c0 ys c xs _ steps v t' fuel hp hq0 hi (Or.inr rfl)
+    (fun h => absurd h (natStr_ne_new _)) hsteps hg hset hf
+
+/-- **finding C03-c in general.**  `[new()]` directly below a list that is an element of a *plain*
+`list` raises `TypeError` — for every tree, depth and continuation — and leaves the tree as it was
+(`parent["[i]"]` is an xpath lookup only on an `n0list`). -/
+theorem C03_new_in_plain_list_raises (cls : Cls) (kvs : List (Str × Val)) (q0 : Pos) (i : Nat) (ys : List Val)
+    (c : Cls) (xs : List Val) (steps : List CStep) (v : Val) (fuel : Nat)
+    (hp : PlainPos q0) (hq0 : getAt (.dict cls kvs) q0 = some (.list .plain ys)) (hi : ys[i]? = some (.list c xs))
+    (hsteps : ∀ x ∈ steps, x.later) (hf : fuel ≥ 4 * (q0.length + 2)) :
+    setItem fuel (.dict cls kvs)
+      (slash ++ renderPos (q0 ++ [.idx i]) ++ (CStep.idx sNew :: steps).flatMap renderCStep) v
+        = (.dict cls kvs, .error .TypeError) :=
+  setItem_new_in_plain_list_raises cls kvs q0 i ys c xs steps v fuel hp hq0 hi hsteps hf
+
+/-- **C03 (every path of the honoured grammar).**  The statement `C03_create_stmt` with exactly one
+hypothesis added: when the first step is a bare `[new()]`, no plain `list` directly encloses the
+target list (`PlainListEncloses t q`: `q = q0 ++ [i]` and the node at `q0` is a plain `list`).
+First step: fresh name, `n[new()]`, `n[0]`, `n[len]` below a dict, `[new()]`/`[len]` below a list
+(held by a key, or an element of an enclosing list); later steps: fresh names, `n[new()]`, `n[0]`
+in any alternation the grammar allows.  The result is exactly `createIn`; nothing raises. -/
+theorem C03_create (cls : Cls) (kvs : List (Str × Val)) (q : Pos) (cur cur' : Val) (s : CStep) (steps : List CStep)
+    (v t' : Val) (fuel : Nat)
+    (hp : PlainPos q) (hget : getAt (.dict cls kvs) q = some cur) (hfirst : s.first)
+    (hsteps : ∀ x ∈ steps, x.later) (hg : GOk (s :: steps))
+    (hcreate : createIn cur (s :: steps) v = some cur') (hset : setAt (.dict cls kvs) q cur' = some t')
+    (hencl : s = .idx sNew → ¬ PlainListEncloses (.dict cls kvs) q)
+    (hf : fuel ≥ 4 * (q.length + 1)) :
+    setItem fuel (.dict cls kvs) (slash ++ renderPos q ++ (s :: steps).flatMap renderCStep) v = (t', .ok ()) :=
+  setItem_create_any cls kvs q cur cur' s steps v t' fuel hp hget hfirst hsteps hg hcreate hset hencl hf
+
+/-- the added hypothesis is needed: the unhypothesised statement is refuted by the witness of C03-c -/
+theorem C03_create_stmt_false : ¬ C03_create_stmt := by
+  intro h
+  obtain ⟨n, hn⟩ := h .n0 [(['x'], .list .plain [.list .plain []])] [.key ['x'], .idx 0] (.list .plain [])
+    (.list .plain [.str ['V']]) (.idx sNew) [] (.str ['V'])
+    (.dict .n0 [(['x'], .list .plain [.list .plain [.str ['V']]])])
+    ⟨⟨by simp, by decide, by simp⟩, trivial⟩ (by decide) trivial (by simp) trivial (by decide) (by decide)
+  have h1 := hn (max n 12) (Nat.le_max_left _ _)
+  have h2 := C03_new_in_plain_list_raises .n0 [(['x'], .list .plain [.list .plain []])] [.key ['x']] 0
+    [.list .plain []] .plain [] [] (.str ['V']) (max n 12) ⟨⟨by simp, by decide, by simp⟩, trivial⟩ (by decide)
+    (by decide) (by simp) (Nat.le_max_right _ _)
+  rw [show ([Seg.key ['x']] ++ [Seg.idx 0] : Pos) = [.key ['x'], .idx 0] from rfl, h1] at h2
+  cases h2
+
+/-- **unrestricted statement (read back).**  After *any* successful `d[xpath] = v` the value reads
+back through the same path with `new()` replaced by `last()`.  Not provable in this generality: it
+quantifies over every path text, also those outside the honoured grammar (`c[new()][0]/m` of
+finding C03-b stores without raising and reads back something else) and over names that contain
+the text `new()` themselves (which `replace` rewrites).  Proved for every path of the honoured
+grammar whose names are free of `(`: `C03_read_back`. -/
 def C03_read_back_stmt : Prop :=
   ∀ (t t' v : Val) (xp : Str) (fuel : Nat),
     setItem fuel t xp v = (t', .ok ()) →
     ∃ n, ∀ f ≥ n, (getItem f t' (replace sNew sLast xp)).2 = .ok v
+
+/-- **C03 (read back, every path of `C03_create_partial`).**  After the creation
+`d[//…q…/s/steps…] = v` (any path of the honoured grammar whose first step is below a dict: names,
+`n[new()]`, `n[0]`, `n[len]` in any alternation, any length), `d[xpath.replace("new()", "last()")]`
+returns `v` and leaves the tree as it is.  Hypothesis added to those of `C03_create_partial`: no
+name on the path contains `(` (`NoParenPos q`, `NoParen x.nameOf`) — otherwise `replace` could
+rewrite a *name* that contains the text `new()`. -/
+theorem C03_read_back (cls : Cls) (kvs : List (Str × Val)) (q : Pos) (kcls : Cls) (nkvs : List (Str × Val))
+    (s : CStep) (steps : List CStep) (v cur' t' : Val) (fuel : Nat)
+    (hp : PlainPos q) (hget : getAt (.dict cls kvs) q = some (.dict kcls nkvs))
+    (hfirst : s.first) (hidx : ∀ e, s ≠ .idx e) (hsteps : ∀ x ∈ steps, x.later)
+    (hnq : NoParenPos q) (hnp : ∀ x ∈ s :: steps, NoParen x.nameOf)
+    (hcreate : createIn (.dict kcls nkvs) (s :: steps) v = some cur')
+    (hset : setAt (.dict cls kvs) q cur' = some t') (hf : fuel ≥ 2 * (q.length + steps.length + 1)) :
+    getItem fuel t' (replace sNew sLast (slash ++ renderPos q ++ (s :: steps).flatMap renderCStep)) = (t', .ok v) :=
+  getItem_readback_steps cls kvs q kcls nkvs s steps v cur' t' fuel hp hget hfirst hidx hsteps hnq hnp hcreate hset hf
+
+/-- **C03 (read back, every path of `C03_create`).**  The same for every first step of the honoured
+grammar, also a bare `[new()]`/`[len]` below a list (`//x[0][new()]/m` reads back through
+`//x[0][last()]/m`).  No hypothesis about enclosing plain lists is needed here: the statement is
+about the tree `createIn` describes. -/
+theorem C03_read_back_any (cls : Cls) (kvs : List (Str × Val)) (q : Pos) (cur cur' : Val) (s : CStep)
+    (steps : List CStep) (v t' : Val) (fuel : Nat)
+    (hp : PlainPos q) (hget : getAt (.dict cls kvs) q = some cur) (hfirst : s.first)
+    (hsteps : ∀ x ∈ steps, x.later) (hnq : NoParenPos q) (hnp : ∀ x ∈ s :: steps, NoParen x.nameOf)
+    (hcreate : createIn cur (s :: steps) v = some cur') (hset : setAt (.dict cls kvs) q cur' = some t')
+    (hf : fuel ≥ 2 * (q.length + steps.length + 1)) :
+    getItem fuel t' (replace sNew sLast (slash ++ renderPos q ++ (s :: steps).flatMap renderCStep)) = (t', .ok v) :=
+  getItem_readback_any cls kvs q cur cur' s steps v t' fuel hp hget hfirst hsteps hnq hnp hcreate hset hf
+
+/-- the text that is read: every `new()` index has become `last()`, nothing else has changed -/
+theorem C03_read_back_path (q : Pos) (steps : List CStep) (hq : NoParenPos q) (hsteps : ∀ x ∈ steps, x.noParen) :
+    replace sNew sLast (slash ++ renderPos q ++ steps.flatMap renderCStep)
+      = slash ++ renderPos q ++ (steps.map lastify).flatMap renderCStep :=
+  replace_path q steps hq hsteps
+
+/-- **create, then read back**: both halves of "after `d[xpath] = v` … `d[xpath]` is `v`" for the
+paths of `C03_create_partial` in one statement. -/
+theorem C03_create_then_read (cls : Cls) (kvs : List (Str × Val)) (q : Pos) (kcls : Cls) (nkvs : List (Str × Val))
+    (s : CStep) (steps : List CStep) (v cur' t' : Val) (fuel : Nat)
+    (hp : PlainPos q) (hget : getAt (.dict cls kvs) q = some (.dict kcls nkvs))
+    (hfirst : s.first) (hidx : ∀ e, s ≠ .idx e) (hsteps : ∀ x ∈ steps, x.later) (hg : GOk (s :: steps))
+    (hnq : NoParenPos q) (hnp : ∀ x ∈ s :: steps, NoParen x.nameOf)
+    (hcreate : createIn (.dict kcls nkvs) (s :: steps) v = some cur')
+    (hset : setAt (.dict cls kvs) q cur' = some t')
+    (hf : fuel ≥ 4 * (q.length + 1)) (hf2 : fuel ≥ 2 * (q.length + steps.length + 1)) :
+    let xp := slash ++ renderPos q ++ (s :: steps).flatMap renderCStep
+    setItem fuel (.dict cls kvs) xp v = (t', .ok ()) ∧ getItem fuel t' (replace sNew sLast xp) = (t', .ok v) :=
+  ⟨C03_create_partial cls kvs q kcls nkvs s steps v cur' t' fuel hp hget hfirst hidx hsteps hg hcreate hset hf,
+   C03_read_back cls kvs q kcls nkvs s steps v cur' t' fuel hp hget hfirst hidx hsteps hnq hnp hcreate hset hf2⟩
 
 /-- **full statement (no misplacement / no debris).**  A creation that is refused leaves the tree
 as it was.  False on the pinned tree: see the two counter-examples. -/
@@ -314,6 +437,116 @@ example : setItem 40 exTree2 ['/', '/', 'a', '/', 'k', '[', 'n', 'e', 'w', '(', 
         · exact ⟨pk_l, Or.inr rfl⟩)
     (by simp [GOk, CStep.isName]) rfl (by decide) (by decide)
 
+/-- read-back of `d['//a/k[new()]/x/l[0]'] = 5` through `'//a/k[last()]/x/l[0]'` (`C03_read_back`: wrap,
+name, fresh one-element list) -/
+theorem np (c : Char) (h : c ≠ '(' := by decide) : NoParen [c] := by
+  intro x hx; simp at hx; subst hx; exact h
+example : replace sNew sLast ['/', '/', 'a', '/', 'k', '[', 'n', 'e', 'w', '(', ')', ']', '/', 'x', '/', 'l', '[', '0', ']']
+    = ['/', '/', 'a', '/', 'k', '[', 'l', 'a', 's', 't', '(', ')', ']', '/', 'x', '/', 'l', '[', '0', ']'] := by decide
+example : getItem 40 (.dict .n0 [(['a'], .dict .n0 [(['l'], .list .n0 [.int 1]),
+        (['k'], .list .n0 [.str ['s'], .dict .n0 [(['x'], .dict .n0 [(['l'], .list .n0 [.int 5])])]])])])
+      (replace sNew sLast
+        ['/', '/', 'a', '/', 'k', '[', 'n', 'e', 'w', '(', ')', ']', '/', 'x', '/', 'l', '[', '0', ']'])
+    = (.dict .n0 [(['a'], .dict .n0 [(['l'], .list .n0 [.int 1]),
+        (['k'], .list .n0 [.str ['s'], .dict .n0 [(['x'], .dict .n0 [(['l'], .list .n0 [.int 5])])]])])], .ok (.int 5)) :=
+  C03_read_back .n0 _ [.key ['a']] .n0 _ (.elem ['k'] ['n', 'e', 'w', '(', ')']) [.name ['x'], .elem ['l'] ['0']] (.int 5) _ _ 40
+    ⟨pk_a, trivial⟩ (rfl : getAt exTree2 _ = _) pk_k (by intro e h; cases h)
+    (by intro x hx; simp at hx; rcases hx with rfl | rfl
+        · exact pk_x
+        · exact ⟨pk_l, Or.inr rfl⟩)
+    ⟨np 'a', trivial⟩
+    (by intro x hx; simp at hx; rcases hx with rfl | rfl | rfl
+        · exact np 'k'
+        · exact np 'x'
+        · exact np 'l')
+    rfl (by decide) (by decide)
+
+/-- read-back of `d['//a/n/m[new()]/x'] = 5` through `'//a/n/m[last()]/x'` (names, element, name) -/
+example : getItem 40 (.dict .n0 [(['a'], .dict .n0 [(['l'], .list .n0 [.int 1]), (['k'], .str ['s']),
+        (['n'], .dict .n0 [(['m'], .list .n0 [.dict .n0 [(['x'], .int 5)]])])])])
+      (replace sNew sLast ['/', '/', 'a', '/', 'n', '/', 'm', '[', 'n', 'e', 'w', '(', ')', ']', '/', 'x'])
+    = (.dict .n0 [(['a'], .dict .n0 [(['l'], .list .n0 [.int 1]), (['k'], .str ['s']),
+        (['n'], .dict .n0 [(['m'], .list .n0 [.dict .n0 [(['x'], .int 5)]])])])], .ok (.int 5)) :=
+  C03_read_back .n0 _ [.key ['a']] .n0 _ (.name ['n']) [.elem ['m'] ['n', 'e', 'w', '(', ')'], .name ['x']] (.int 5) _ _ 40
+    ⟨pk_a, trivial⟩ (rfl : getAt exTree2 _ = _) pk_n (by intro e h; cases h)
+    (by intro x hx; simp at hx; rcases hx with rfl | rfl
+        · exact ⟨pk_m, Or.inl (by decide)⟩
+        · exact pk_x)
+    ⟨np 'a', trivial⟩
+    (by intro x hx; simp at hx; rcases hx with rfl | rfl | rfl
+        · exact np 'n'
+        · exact np 'm'
+        · exact np 'x')
+    rfl (by decide) (by decide)
+
+/-- outside the honoured grammar the unrestricted `C03_read_back_stmt` fails (at fuel 40): after the
+silent misplacement of C03-b (`C03_misplaced_cex`) the value does not read back -/
+example : (getItem 40 (.dict .n0 [(['a'], .dict .n0 []), (['c'], .list .n0 [.none, .list .n0 [.str ['V']]])])
+      (replace sNew sLast ['c', '[', 'n', 'e', 'w', '(', ')', ']', '[', '0', ']', '/', 'm'])).2 ≠ .ok (.str ['V']) := by
+  decide
+
+/-- lists inside lists: `x` is an `n0list` holding an `n0list`, `p` a plain list holding a plain list -/
+def exTree3 : Val :=
+  .dict .n0 [(['x'], .list .n0 [.list .n0 [.int 1]]), (['p'], .list .plain [.list .plain []])]
+theorem pk_p : PlainKey ['p'] := ⟨by simp, by decide, by simp⟩
+
+/-- `d['//x[0][new()]'] = 5` appends to the inner list (`C03_append_new_in_n0list`) -/
+example : setItem 40 exTree3 ['/', '/', 'x', '[', '0', ']', '[', 'n', 'e', 'w', '(', ')', ']'] (.int 5)
+    = (.dict .n0 [(['x'], .list .n0 [.list .n0 [.int 1, .int 5]]), (['p'], .list .plain [.list .plain []])], .ok ()) :=
+  C03_append_new_in_n0list .n0 _ [.key ['x']] 0 [.list .n0 [.int 1]] .n0 [.int 1] [] (.int 5) _ 40 ⟨pk_x, trivial⟩
+    rfl rfl (by simp) trivial (by decide) (by decide)
+
+/-- `d['//p[0][0]'] = 5` (`len = 0`) appends below a *plain* list (`C03_len_in_list`) -/
+example : setItem 40 exTree3 ['/', '/', 'p', '[', '0', ']', '[', '0', ']'] (.int 5)
+    = (.dict .n0 [(['x'], .list .n0 [.list .n0 [.int 1]]), (['p'], .list .plain [.list .plain [.int 5]])], .ok ()) :=
+  C03_len_in_list .n0 _ [.key ['p']] 0 .plain [.list .plain []] .plain [] [] (.int 5) _ 40 ⟨pk_p, trivial⟩
+    rfl rfl (by simp) trivial (by decide) (by decide)
+
+/-- `d['//x[0][new()]/m'] = 5`: bare `[new()]` first step followed by a name (`C03_create`; the
+enclosing list is an `n0list`) -/
+example : setItem 40 exTree3 ['/', '/', 'x', '[', '0', ']', '[', 'n', 'e', 'w', '(', ')', ']', '/', 'm'] (.int 5)
+    = (.dict .n0 [(['x'], .list .n0 [.list .n0 [.int 1, .dict .n0 [(['m'], .int 5)]]]),
+        (['p'], .list .plain [.list .plain []])], .ok ()) :=
+  C03_create .n0 _ [.key ['x'], .idx 0] (.list .n0 [.int 1]) _ (.idx ['n', 'e', 'w', '(', ')']) [.name ['m']] (.int 5) _ 40
+    ⟨pk_x, trivial⟩ rfl trivial (by intro x hx; simp at hx; subst hx; exact pk_m) (by simp [GOk, CStep.isName])
+    rfl (by decide)
+    (by
+      rintro _ ⟨q0, i, ys, hq, hg⟩
+      obtain ⟨rfl, hi⟩ := List.append_inj' (show [Seg.key ['x']] ++ [Seg.idx 0] = q0 ++ [Seg.idx i] from hq) rfl
+      simp [getAt, child, lookup] at hg)
+    (by decide)
+
+/-- … and its read-back through `'//x[0][last()]/m'` (`C03_read_back_any`) -/
+example : getItem 40 (.dict .n0 [(['x'], .list .n0 [.list .n0 [.int 1, .dict .n0 [(['m'], .int 5)]]]),
+        (['p'], .list .plain [.list .plain []])])
+      (replace sNew sLast ['/', '/', 'x', '[', '0', ']', '[', 'n', 'e', 'w', '(', ')', ']', '/', 'm'])
+    = (.dict .n0 [(['x'], .list .n0 [.list .n0 [.int 1, .dict .n0 [(['m'], .int 5)]]]),
+        (['p'], .list .plain [.list .plain []])], .ok (.int 5)) :=
+  C03_read_back_any .n0 _ [.key ['x'], .idx 0] (.list .n0 [.int 1]) _ (.idx ['n', 'e', 'w', '(', ')']) [.name ['m']] (.int 5) _ 40
+    ⟨pk_x, trivial⟩ (rfl : getAt exTree3 _ = _) trivial (by intro x hx; simp at hx; subst hx; exact pk_m)
+    ⟨np 'x', trivial⟩
+    (by intro x hx; simp at hx; rcases hx with rfl | rfl
+        · intro c hc; simp [CStep.nameOf] at hc
+        · exact np 'm')
+    rfl (by decide) (by decide)
+
+/-- `d['//x[new()]'] = 5`: bare `[new()]` below a list held by a key (`C03_create`, the text of `x[new()]`) -/
+example : setItem 40 exTree3 ['/', '/', 'x', '[', 'n', 'e', 'w', '(', ')', ']'] (.int 5)
+    = (.dict .n0 [(['x'], .list .n0 [.list .n0 [.int 1], .int 5]), (['p'], .list .plain [.list .plain []])], .ok ()) :=
+  C03_create .n0 _ [.key ['x']] (.list .n0 [.list .n0 [.int 1]]) _ (.idx ['n', 'e', 'w', '(', ')']) [] (.int 5) _ 40
+    ⟨pk_x, trivial⟩ rfl trivial (by simp) trivial rfl (by decide)
+    (by
+      rintro _ ⟨q0, i, ys, hq, _⟩
+      have := (List.append_inj' (show [] ++ [Seg.key ['x']] = q0 ++ [Seg.idx i] from hq) rfl).2
+      cases this)
+    (by decide)
+
+/-- `d['//p[0][new()]'] = 5` raises: the general form of C03-c on this tree (`C03_new_in_plain_list_raises`) -/
+example : setItem 40 exTree3 ['/', '/', 'p', '[', '0', ']', '[', 'n', 'e', 'w', '(', ')', ']'] (.int 5)
+    = (exTree3, .error .TypeError) :=
+  C03_new_in_plain_list_raises .n0 _ [.key ['p']] 0 [.list .plain []] .plain [] [] (.int 5) 40 ⟨pk_p, trivial⟩
+    rfl rfl (by simp) (by decide)
+
 /-- creations the code honours, evaluated directly (relative spellings as a user writes them) -/
 example : setItem 40 exTree ['a', '/', 'n', '/', 'm'] (.int 5)
     = (.dict .n0 [(['a'], .dict .n0 [(['n'], .dict .n0 [(['m'], .int 5)])])], .ok ()) := by decide
@@ -326,5 +559,98 @@ example : createIn (.dict .n0 []) [.name ['n'], .elem ['m'] sNew, .name ['x']] (
     = some (.dict .n0 [(['n'], .dict .n0 [(['m'], .list .n0 [.dict .n0 [(['x'], .int 5)]])])]) := by decide
 example : (setItem 40 exTree ['a', '/', 'n', '/', 'm', '[', 'n', 'e', 'w', '(', ')', ']', '/', 'x'] (.int 5)).1
     = .dict .n0 [(['a'], .dict .n0 [(['n'], .dict .n0 [(['m'], .list .n0 [.dict .n0 [(['x'], .int 5)]])])])] := by decide
+
+/-! ## 6. histories: creations interleaved with C02 writes and C05 deletions
+
+`Hist.Op` is one call: a write to an existing node, a creation by a `CStep` path below an existing
+dict node, a `delete` (with or without `recursively`) or a `pop` of an existing node — each with the
+canonical path text of the node **in the state the call is made in**.  `Hist.applyOp` is the plain
+nested dict/list model (`setAt`, `createIn`, `delAt`, `pruneUp`); `Hist.runOp` is the call through
+`__setitem__` / `delete` / `pop`.  `Hist.ValidOps t ops` says that every operation is inside the
+quantifier of C02/C03/C05 in the state it is applied to (the path is made of plain names, the
+addressed node exists, `createIn` is defined).  Nothing is asked of the keys *inside* the tree or
+inside written values: only the paths of the operations must be plain. -/
+
+/-- **C03 (histories).**  After any finite interleaving of creations with C02 writes and C05
+deletions/pops the tree equals the plain model that applied the same operations, no call raises,
+and every `pop` returned the node it removed (`obs`). -/
+theorem C03_history (fuel : Nat) (ops : List Hist.Op) (cls : Cls) (kvs : List (Str × Val))
+    (hv : Hist.ValidOps (.dict cls kvs) ops) (hf : ∀ op ∈ ops, fuel ≥ Hist.opFuel op) :
+    ∃ t' obs, Hist.applyOps (.dict cls kvs) ops = some (t', obs) ∧
+      Hist.runOps fuel (.dict cls kvs) ops = (t', .ok obs) :=
+  Hist.history fuel ops cls kvs hv hf
+
+/-- one call of a history, on its own: model = reference, nothing raised -/
+theorem C03_history_step (cls : Cls) (kvs : List (Str × Val)) (op : Hist.Op) (t' : Val) (fuel : Nat)
+    (hv : Hist.ValidOp (.dict cls kvs) op) (ha : Hist.applyOp (.dict cls kvs) op = some t')
+    (hf : fuel ≥ Hist.opFuel op) :
+    Hist.runOp fuel (.dict cls kvs) op = (t', .ok (Hist.obsOp (.dict cls kvs) op)) :=
+  Hist.runOp_ok cls kvs op t' fuel hv ha hf
+
+/-- the root stays a dictionary of the same class along a history -/
+theorem C03_history_root (cls : Cls) (kvs : List (Str × Val)) (op : Hist.Op) (t' : Val)
+    (hv : Hist.ValidOp (.dict cls kvs) op) (ha : Hist.applyOp (.dict cls kvs) op = some t') :
+    ∃ kvs', t' = .dict cls kvs' :=
+  Hist.applyOp_dict_root cls kvs op t' hv ha
+
+/-! Non-vacuity: a history with all kinds of call on `exTree2`
+(`{a: {l: [1], k: 's'}}`):
+1. `d['//a/n/m[new()]/x'] = 5` (creation: names, element, name),
+2. `d['//a/l[0]'] = 7` (C02 write),
+3. `d.delete('//a/n/m[0]/x', recursively=True)` (removes `x`, then the emptied dict `m[0]`; the list `m` stays),
+4. `d.pop('//a/k', 'D')` (returns `'s'`),
+5. `d['//a/k[new()]'] = 9` (creation on the name that has just been removed),
+6. `d['//a/l[new()]'] = 8` (bare `[new()]` first step below the list `l`). -/
+def exHistory : List Hist.Op :=
+  [ .create [.key ['a']] (.name ['n']) [.elem ['m'] ['n', 'e', 'w', '(', ')'], .name ['x']] (.int 5),
+    .write [.key ['a'], .key ['l'], .idx 0] (.int 7),
+    .del [.key ['a'], .key ['n'], .key ['m'], .idx 0, .key ['x']] true,
+    .pop [.key ['a'], .key ['k']] (.str ['D']) false,
+    .create [.key ['a']] (.elem ['k'] ['n', 'e', 'w', '(', ')']) [] (.int 9),
+    .create [.key ['a'], .key ['l']] (.idx ['n', 'e', 'w', '(', ')']) [] (.int 8) ]
+
+theorem exHistory_valid : Hist.ValidOps exTree2 exHistory := by
+  refine .cons (t' := .dict .n0 [(['a'], .dict .n0 [(['l'], .list .n0 [.int 1]), (['k'], .str ['s']),
+      (['n'], .dict .n0 [(['m'], .list .n0 [.dict .n0 [(['x'], .int 5)]])])])]) ?_ (by decide) ?_
+  · refine ⟨⟨pk_a, trivial⟩, pk_n, ?_, by simp [GOk, CStep.isName], (by intro h; cases h)⟩
+    intro x hx; simp at hx; rcases hx with rfl | rfl
+    · exact ⟨pk_m, Or.inl (by decide)⟩
+    · exact pk_x
+  refine .cons (t' := .dict .n0 [(['a'], .dict .n0 [(['l'], .list .n0 [.int 7]), (['k'], .str ['s']),
+      (['n'], .dict .n0 [(['m'], .list .n0 [.dict .n0 [(['x'], .int 5)]])])])]) ?_ (by decide) ?_
+  · exact ⟨⟨pk_a, pk_l, trivial⟩, by simp, _, rfl⟩
+  refine .cons (t' := .dict .n0 [(['a'], .dict .n0 [(['l'], .list .n0 [.int 7]), (['k'], .str ['s']),
+      (['n'], .dict .n0 [(['m'], .list .n0 [])])])]) ?_ (by decide) ?_
+  · exact ⟨⟨pk_a, pk_n, pk_m, pk_x, trivial⟩, by simp, _, rfl⟩
+  refine .cons (t' := .dict .n0 [(['a'], .dict .n0 [(['l'], .list .n0 [.int 7]),
+      (['n'], .dict .n0 [(['m'], .list .n0 [])])])]) ?_ (by decide) ?_
+  · exact ⟨⟨pk_a, pk_k, trivial⟩, by simp, _, rfl⟩
+  refine .cons (t' := .dict .n0 [(['a'], .dict .n0 [(['l'], .list .n0 [.int 7]),
+      (['n'], .dict .n0 [(['m'], .list .n0 [])]), (['k'], .list .n0 [.int 9])])]) ?_ (by decide) ?_
+  · exact ⟨⟨pk_a, trivial⟩, pk_k, by simp, by simp [GOk], (by intro h; cases h)⟩
+  refine .cons (t' := .dict .n0 [(['a'], .dict .n0 [(['l'], .list .n0 [.int 7, .int 8]),
+      (['n'], .dict .n0 [(['m'], .list .n0 [])]), (['k'], .list .n0 [.int 9])])]) ?_ (by decide) (.nil _)
+  · refine ⟨⟨pk_a, pk_l, trivial⟩, trivial, by simp, by simp [GOk], ?_⟩
+    rintro _ ⟨q0, i, ys, hq, _⟩
+    have := (List.append_inj' (show [Seg.key ['a']] ++ [Seg.key ['l']] = q0 ++ [Seg.idx i] from hq) rfl).2
+    cases this
+
+/-- the model run of that history, evaluated: final tree and what the calls returned -/
+example : Hist.runOps 40 exTree2 exHistory
+    = (.dict .n0 [(['a'], .dict .n0 [(['l'], .list .n0 [.int 7, .int 8]),
+        (['n'], .dict .n0 [(['m'], .list .n0 [])]), (['k'], .list .n0 [.int 9])])],
+       .ok [Option.none, Option.none, Option.none, some (.str ['s']), Option.none, Option.none]) := by decide
+/-- … and the same through the theorem -/
+example : ∃ t' obs, Hist.applyOps exTree2 exHistory = some (t', obs) ∧
+    Hist.runOps 40 exTree2 exHistory = (t', .ok obs) :=
+  C03_history 40 exHistory .n0 _ exHistory_valid (by decide)
+/-- the path texts the six calls are made with -/
+example : exHistory.map Hist.opPath =
+    [['/', '/', 'a', '/', 'n', '/', 'm', '[', 'n', 'e', 'w', '(', ')', ']', '/', 'x'],
+     ['/', '/', 'a', '/', 'l', '[', '0', ']'],
+     ['/', '/', 'a', '/', 'n', '/', 'm', '[', '0', ']', '/', 'x'],
+     ['/', '/', 'a', '/', 'k'],
+     ['/', '/', 'a', '/', 'k', '[', 'n', 'e', 'w', '(', ')', ']'],
+     ['/', '/', 'a', '/', 'l', '[', 'n', 'e', 'w', '(', ')', ']']] := by decide
 
 end N0.C03
